@@ -8,6 +8,7 @@ CONSTANTS
   EasePool <- EasesA
   TimingPool <- TimingsA
   Seed = 1
+  PosPool <- AllPos
   NRand = 0
 INVARIANT Emit
 CHECK_DEADLOCK FALSE
